@@ -1,7 +1,7 @@
 #!/bin/bash
 # ./run.sh <ID> [quick|thorough]   run one property check (rebuilds the worker from /repo's working tree)
 # ./run.sh replay <path>           re-execute a recorded witness
-cd /verif || exit 2
+cd "$(dirname "$(readlink -f "$0")")" || exit 2
 export GOFLAGS=-mod=mod GOPROXY=off GOSUMDB=off GOTOOLCHAIN=local CGO_ENABLED=1
 mkdir -p .work evidence
 go build -o .work/vcheck ./cmd/vcheck || { echo "cannot build the driver"; exit 2; }
